@@ -5,7 +5,7 @@ fake link whose frames in flight, breaks and reconnects the explorer controls.
 """
 from mc import bfs
 from mc.world2 import World2, norm_frame
-from mc.world import num_in, num_out, journal_rows, conn_key, stored_counters
+from mc.world import session_of, num_in, num_out, journal_rows, conn_key, stored_counters
 from mc import refs
 
 POOL = [("CLI", "SRV"), ("INI", "ACC"), ("T1", "S1"), ("FIRM", "EXCH")]
@@ -67,7 +67,7 @@ class Sim:
             s = w.side(x)
             rows = tuple((d, seq, nf_small(m)) for (_, d, seq, m) in journal_rows(s.j))
             parts.append((conn_key(s.c), rows, tuple(i for (_t, _n, b) in s.c.delivered for i in [b.get("11")]),
-                          stored_counters(s.j, s.c._session.target_comp_id, s.c._session.sender_comp_id)))
+                          stored_counters(s.j, session_of(s.c).target_comp_id, session_of(s.c).sender_comp_id)))
         fl = tuple(tuple(norm_frame(f) for f in w.flight[d]) for d in ("AB", "BA"))
         return (tuple(parts), fl, w.up, tuple(self.accepted["A"]), tuple(self.accepted["B"]), tuple(self.maybe["A"]),
                 tuple(self.maybe["B"]), self.nsend, self.nbreak, tuple(sorted(self.logon_seen.items())))
